@@ -335,6 +335,9 @@ func runHttpSub(c HttpCase) *pbt.Violation {
 	if fd != nil {
 		fd.frames(2)
 	}
+	if v := statSnapshot(s, "c13feed", "c13nobody"); v != nil { // with the hostile http subscriber attached
+		return v
+	}
 	cli.CloseWrite()
 	_ = cli.Close()
 	if v := waitReturn(s, wait, "logic.(*HttpServerHandler).ServeSubSession", "http-sub"); v != nil {
